@@ -913,6 +913,18 @@ func checkC16(c *Ctx) {
 					}
 				}
 				fixNilLeaves(obj)
+				if c.R.Chance(1, 2) {
+					// keys that look like the path without being on it (the rest of the path at the top of the object when the
+					// walk breaks off, letter-case variants, dotted keys): inert by every property
+					addDecoys(c.R, obj, [][]string{path}, func() *AV {
+						for {
+							if v := pick(c.R, attrClasses)(); v != nil {
+								return v
+							}
+						}
+					})
+					c.count("table_cells_with_decoy_keys")
+				}
 				cells = append(cells, &leafCase{leaf: lf, text: c.style(false).Render(lf), obj: obj})
 			}
 		}
